@@ -34,6 +34,7 @@ import (
 
 	"go.opentelemetry.io/otel/attribute"
 	"go.opentelemetry.io/otel/codes"
+	"go.opentelemetry.io/otel/metric"
 	"go.opentelemetry.io/otel/propagation"
 	sdkmetric "go.opentelemetry.io/otel/sdk/metric"
 	"go.opentelemetry.io/otel/sdk/metric/metricdata"
@@ -197,16 +198,20 @@ type wtracer struct {
 
 func (t wtracer) Start(ctx context.Context, name string, o ...trace.SpanStartOption) (context.Context, trace.Span) {
 	n := reqNum(ctx)
-	if n == 0 {
-		n = t.tel.current.Load()
-	}
 	ctx2, sp := t.Tracer.Start(ctx, name, o...)
 	ws := &wspan{Span: sp, n: n, recording: sp.IsRecording(), tel: t.tel}
 	t.tel.mu.Lock()
 	t.tel.spans = append(t.tel.spans, ws)
 	t.tel.mu.Unlock()
-	if t.tel.onStart != nil {
-		t.tel.onStart(ws)
+	if t.tel.onEvent != nil {
+		ev := map[string]any{"ev": "span_start", "n": n, "recording": ws.recording, "parent": "-", "ts": "-"}
+		if ro, ok := sp.(sdktrace.ReadOnlySpan); ok && ws.recording {
+			x, _ := t.tel.reqs.Load(n)
+			xc, _ := x.(tctx)
+			ev["parent"] = describeParent(ro, xc)
+			ev["ts"] = describeState(ro.SpanContext().TraceState().String(), xc)
+		}
+		t.tel.event(ev)
 	}
 	return trace.ContextWithSpan(ctx2, ws), ws
 }
@@ -226,8 +231,13 @@ func withReqNum(ctx context.Context, n int64) context.Context {
 	return context.WithValue(ctx, ctxKey{}, n)
 }
 func reqNum(ctx context.Context) int64 {
-	n, _ := ctx.Value(ctxKey{}).(int64)
-	return n
+	switch v := ctx.Value(ctxKey{}).(type) {
+	case int64:
+		return v
+	case *atomic.Int64: // pipe connection: the request its client currently has in flight
+		return v.Load()
+	}
+	return 0
 }
 
 // telemetry is everything the in-memory SDK recorded for one server.
@@ -236,11 +246,47 @@ type telemetry struct {
 	reader *sdkmetric.ManualReader
 	mu     sync.Mutex
 	spans  []*wspan
-	// sequential replay: the request currently inside a pipe server (pipe dispatches run
-	// under the connection's context, which carries no per-request value)
-	current atomic.Int64
-	onStart func(*wspan)
+	adds    atomic.Int64 // Add calls seen on rpc.server.requests
+	reqs    sync.Map     // request number -> tctx (trace recording only)
 	onEvent func(map[string]any)
+}
+
+// the request counter, wrapped so that every Add is seen as it happens
+type wcounter struct {
+	metric.Int64Counter
+	tel *telemetry
+}
+
+func (c wcounter) Add(ctx context.Context, incr int64, o ...metric.AddOption) {
+	c.tel.adds.Add(1)
+	if c.tel.onEvent != nil {
+		set := metric.NewAddConfig(o).Attributes()
+		st, _ := set.Value("status")
+		c.tel.event(map[string]any{"ev": "counter_add", "n": reqNum(ctx), "status": st.AsString(), "incr": incr})
+	}
+	c.Int64Counter.Add(ctx, incr, o...)
+}
+
+type wmeter struct {
+	metric.Meter
+	tel *telemetry
+}
+
+func (m wmeter) Int64Counter(name string, o ...metric.Int64CounterOption) (metric.Int64Counter, error) {
+	c, err := m.Meter.Int64Counter(name, o...)
+	if err != nil || name != "rpc.server.requests" {
+		return c, err
+	}
+	return wcounter{Int64Counter: c, tel: m.tel}, nil
+}
+
+type wmeterProvider struct {
+	metric.MeterProvider
+	tel *telemetry
+}
+
+func (p wmeterProvider) Meter(name string, o ...metric.MeterOption) metric.Meter {
+	return wmeter{Meter: p.MeterProvider.Meter(name, o...), tel: p.tel}
 }
 
 func (t *telemetry) event(m map[string]any) {
@@ -298,7 +344,7 @@ func newSUT(cfg hookCfg, rng *rand.Rand) *sut {
 	register(srv)
 	oc := vgiotel.OtelConfig{
 		TracerProvider:   wprovider{TracerProvider: tp, tel: tel},
-		MeterProvider:    mp,
+		MeterProvider:    wmeterProvider{MeterProvider: mp, tel: tel},
 		EnableTracing:    cfg.Tracing,
 		EnableMetrics:    cfg.Metrics,
 		RecordExceptions: rng.Intn(2) == 0,
@@ -501,12 +547,14 @@ type client struct {
 	token, call []byte         // HTTP stream tokens
 	kind        string         // "none" | "producer" | "exchange"
 	method      string
+	cur         atomic.Int64 // request this client currently has in flight
 }
 
 func (s *sut) newClient(id int) *client {
 	sr, cw := io.Pipe()
 	cr, sw := io.Pipe()
-	ctx, cancel := context.WithCancel(context.Background())
+	c := &client{id: id, cw: cw, cr: cr, kind: "none"}
+	ctx, cancel := context.WithCancel(context.WithValue(context.Background(), ctxKey{}, &c.cur))
 	prev := s.cancel
 	s.cancel = func() {
 		cancel()
@@ -521,7 +569,7 @@ func (s *sut) newClient(id int) *client {
 		sw.Close()
 		sr.Close()
 	}()
-	return &client{id: id, cw: cw, cr: cr, kind: "none"}
+	return c
 }
 
 type result struct {
@@ -623,7 +671,7 @@ func (s *sut) pipeCall(c *client, n int64, call map[string]any, x tctx, rng *ran
 	default:
 		return result{}, fmt.Errorf("unknown pipe call kind %q", kind)
 	}
-	s.tel.current.Store(n)
+	c.cur.Store(n)
 	exc, err := c.pipeRoundTrip(payload, true)
 	if err != nil {
 		return result{}, fmt.Errorf("pipe %s: %w", kind, err)
@@ -930,6 +978,10 @@ func (st *stepper) observe(c *client, x tctx, res result) (replay.Obs, error) {
 			code = ro.Status().Code
 			parents = append(parents, describeParent(ro, x))
 			states = append(states, describeState(ro.SpanContext().TraceState().String(), x))
+		} else if live, ok := ws.Span.(sdktrace.ReadOnlySpan); ok {
+			// never ended: read parent and tracestate off the live span
+			parents = append(parents, describeParent(live, x))
+			states = append(states, describeState(live.SpanContext().TraceState().String(), x))
 		} else {
 			parents = append(parents, "not-ended")
 			states = append(states, "not-ended")
